@@ -34,17 +34,17 @@ GEN = {
 def mc_family(family, tier, wd):
     if family == 'race':
         # two clients at once: the lock discipline of the handlers (IggyCatalogueMT); the as-found one must be refuted
-        consts = dict(Topics='{1,2}' if tier == 'quick' else '{1,2,3}', PurgeExclusive='TRUE', ReleaseEarly='{}')
+        consts = dict(Inst='{1,2}', Topics='{1}' if tier == 'quick' else '{1,2}', PurgeExclusive='TRUE', ReleaseEarly='{}')
         cfg = os.path.join(wd, 'MC_race.cfg')
         write_cfg(cfg, 'Spec', consts, invariants=['Replayable', 'SameCatalogue'])
         r = tlc_mc('IggyCatalogueMT', cfg, wd, workers=4, timeout=1200)
         cfg2 = os.path.join(wd, 'MC_race_asfound.cfg')
-        write_cfg(cfg2, 'Spec', dict(Topics='{1}', PurgeExclusive='FALSE', ReleaseEarly='{}'), invariants=['Replayable'])
+        write_cfg(cfg2, 'Spec', dict(Inst='{1}', Topics='{1}', PurgeExclusive='FALSE', ReleaseEarly='{}'), invariants=['Replayable'])
         r2 = tlc_mc('IggyCatalogueMT', cfg2, wd, workers=1, timeout=300)
         if r2['ok']:
             raise ToolError('the as-found lock discipline (purge under the shared lock) was NOT refuted: the model lost its teeth')
         cfg3 = os.path.join(wd, 'MC_race_release.cfg')
-        write_cfg(cfg3, 'Spec', dict(Topics='{1}', PurgeExclusive='TRUE', ReleaseEarly='{"delete"}'), invariants=['Replayable', 'SameCatalogue'])
+        write_cfg(cfg3, 'Spec', dict(Inst='{1,2}', Topics='{1}', PurgeExclusive='TRUE', ReleaseEarly='{"delete"}'), invariants=['Replayable', 'SameCatalogue'])
         r3 = tlc_mc('IggyCatalogueMT', cfg3, wd, workers=1, timeout=300)
         if r3['ok']:
             raise ToolError('a delete that releases the lock before it journals was NOT refuted: the model lost its teeth')
